@@ -17,7 +17,12 @@ Two kinds of cases:
                        digest ('first' / 'last' octet differs, 'empty', 'prefix:K' = only its first K octets, 'suffix:K',
                        'ext:K' = the right digest followed by K more octets, 'pad:K' = first K octets then zeros up to 32);
                        pkt 'svar' = the same near misses of the DigestSha256 SignatureValue (parameters digest right),
-                       which matter to the legacy default validator; route 'appv' = the application-wide legacy
+                       which matter to the legacy default validator; pkt 'shape' = {'info': bool, 'value': None | 'empty' |
+                       'full'}: a HAND-BUILT Interest (no encoder of the library writes these) with / without the
+                       InterestSignatureInfo element (0x2c) and without / with an empty / with a 32-octet
+                       InterestSignatureValue element (0x2e) - a half-signed Interest; it "carries a signature" iff it
+                       carries an InterestSignatureInfo (pkt 'sig' says so), whatever the decoder makes of it;
+                       route 'appv' = the application-wide legacy
                        int_validator was replaced by a script; route validator {'union': [script, ...]} = the route's
                        validator is security.union_checker over scripted members (legacy signature)
   {'kind': 'd', 'svar': None | near miss, 'appv': None | {'verdict': ..}, 'raw': bool, 'lp': bool}
@@ -25,6 +30,19 @@ Two kinds of cases:
                        answered by a Data whose DigestSha256 SignatureValue is right / a near miss; the validator in
                        force is the application-wide data_validator (the library's sha256_digest_checker, or a script
                        when 'appv' is given). Oracle only.
+  {'kind': 't', 'fe': .., 'line': [entry, ...]}
+                       a TIMED history of the incoming-Interest gate (validation takes time, the routing table changes
+                       meanwhile).  Entries, in time order (all instants distinct):
+                         {'t': ms, 'op': 'attach', 'name': '/g', 'h': hid | None, 'v': vid | None}
+                         {'t': ms, 'op': 'detach', 'name': '/g'}
+                         {'t': ms, 'op': 'interest', 'name': '/g/x0', 'pkt': {...as in kind g...}, 'verdict': .., 'lat': ms}
+                       handlers and validators are identified by numbers (every attach entry has its own handler id);
+                       whichever validator is consulted with an Interest answers with THAT Interest's verdict after
+                       its latency (or raises); the legacy application-wide int_validator is validator 0.
+                       The model is given the same history as events (attach / detach / arrive+start at the instant of
+                       arrival / done at arrival + latency) and answers, per event, what is observed (digest check,
+                       validator vid called with Interest i, handler hid called with Interest i, task of Interest i died).
+  kind 'g' with 'swap' (the older form of the same question) is put to the timed model too.
 """
 import asyncio
 import hashlib
@@ -42,7 +60,14 @@ THEOREMS = ['Ndn.C05.' + t for t in (
     'interest_rejected_by_verdict', 'plain_interest_no_validator',
     # the models compute with / are pinned to the tables generated from the source text (lean/NdnGen/C05.lean, C03.lean)
     'onInterest_eq_ref', 'digest_check_exact', 'gen_valid_result', 'gen_data_delivers', 'gen_interest_delivers',
-    'gen_gate_order', 'gen_gate_when', 'gen_digest_checkers')] + [
+    'gen_gate_order', 'gen_gate_when', 'gen_digest_checkers',
+    # the timed gate (NdnModel/GateTimed.lean): every event history, table changes while validators decide
+    'timed_flight', 'timed_only_own_events', 'timed_validated_before_handler_v2', 'timed_validated_before_handler_v1',
+    'timed_handler_only_with_its_validator', 'timed_handler_only_with_its_validator_v1', 'arrival_registration',
+    'arrival_no_route', 'timed_digest_gate', 'timed_plain', 'timed_at_most_once', 'timed_rejected',
+    'timed_not_before_verdict', 'timed_validator_raises', 'timed_refines_atomic', 'timed_atomic_when_undisturbed',
+    'timed_deadline_irrelevant', 'life_eq_ref', 'gen_timed')] + [
+    'Ndn.GateTimed.heap_frozen', 'Ndn.GateTimed.registrations_refine', 'Ndn.GateTimed.cbOf_run'] + [
     # pins of the verdict part of the PIT table, on which every lemma file of C03 / C05 is built (Lemmas/PitGen.lean)
     'Ndn.C03.gen_data_verdict', 'Ndn.C03.gen_table_ok']
 PARTIAL = {}
@@ -59,12 +84,103 @@ TRUSTED = c03.TRUSTED + [
     'packet the harness built (valid / corrupted DigestSha256 signature)',
     'C05: the incoming-Interest gate is modelled after decoding and route lookup (decoding = C07, dispatch = C04); '
     'params_sha256_checker is observed through a logging wrapper installed by the harness',
+    'C05 timed gate: asyncio is modelled as three instants per Interest - arrival (`_on_interest` up to create_task runs '
+    'without yielding: the only await before the spawn is the digest check, pinned by gen_timed; that the checker itself '
+    'does not yield is sampled), first turn of the spawned task (same loop iteration batch as the arrival in the harness), '
+    'return of the validator; an exception that ends a task nobody awaits goes to the loop exception handler only. '
+    'pygtrie is an association list name -> node object; PrefixTreeNode objects live on a heap with addresses. '
+    'lean/NdnGen/C05T.lean is regenerated from appv2.py / app.py by every run (generate_c05t below, ast only)',
 ]
 def extract(repo):
     """lean/NdnGen/C05.lean from the source text; the PIT table (C03) is refreshed with it: the Data side of this
     property is stated over the PIT model"""
     c03._refresh('C03', pit_extract.generate_c03(repo))
+    c03._refresh('C05T', generate_c05t(repo))
     return pit_extract.generate_c05(repo)
+
+
+def submit_shape(cls, attach):
+    """what the timed model depends on in `_on_interest` / `submit_interest` / the attach function (ast only)"""
+    import ast
+    X = pit_extract
+    g = {'lookups': 0, 'nodeBinds': [], 'spawn': 'unknown: ?', 'validatorRead': 'unknown: ?', 'callbackCall': 'unknown: ?',
+         'validatorCaught': ['unknown'], 'validatorCaughtAs': 'unknown', 'awaitsBefore': [], 'valWrite': 'unknown'}
+    f = X.find_func(cls, '_on_interest') if cls else None
+    sub = X.find_func(f, 'submit_interest') if f else None
+    if f is None or sub is None:
+        return g
+    # every mention of the handler table inside _on_interest (the nested task included): one lookup
+    g['lookups'] = sum(1 for n in ast.walk(f) if isinstance(n, ast.Attribute) and isinstance(n.value, ast.Name)
+                       and n.value.id == 'self' and n.attr in ('_fib', '_prefix_tree'))
+    binds = []
+    for n in ast.walk(f):
+        tg = []
+        if isinstance(n, ast.Assign):
+            tg = n.targets
+        elif isinstance(n, (ast.AnnAssign, ast.AugAssign, ast.For, ast.AsyncFor, ast.NamedExpr)):
+            tg = [n.target]
+        elif isinstance(n, (ast.With, ast.AsyncWith)):
+            tg = [i.optional_vars for i in n.items if i.optional_vars is not None]
+        if any(isinstance(x, ast.Name) and x.id == 'node' for t in tg for x in ast.walk(t)):
+            binds.append(ast.unparse(n).split('\n')[0])
+    g['nodeBinds'] = binds
+    g['spawn'] = ast.unparse(f.body[-1])
+    reads = sorted(set(ast.unparse(n) for n in ast.walk(sub) if isinstance(n, ast.Attribute) and n.attr == 'validator'))
+    g['validatorRead'] = ' | '.join(reads) if reads else 'unknown: none'
+    calls = sorted(set(ast.unparse(n.value.func) for n in ast.walk(sub) if isinstance(n, ast.Expr)
+                       and isinstance(n.value, ast.Call) and not ast.unparse(n.value.func).startswith('self.logger')))
+    g['callbackCall'] = ' | '.join(calls) if calls else 'unknown: none'
+    caught, caught_as = [], 'unknown'
+    for n in ast.walk(sub):
+        if isinstance(n, ast.Try) and any(isinstance(x, ast.Await) for st in n.body for x in ast.walk(st)):
+            for h in n.handlers:
+                caught += X.handler_classes(h)
+                for st in h.body:
+                    if isinstance(st, ast.Assign) and ast.unparse(st.targets[0]) == 'valid':
+                        caught_as = X.vr_of(st.value) or 'unknown'
+    g['validatorCaught'] = X.sort_exc(caught)
+    g['validatorCaughtAs'] = caught_as
+
+    def awaits(node, acc):
+        for ch in ast.iter_child_nodes(node):
+            if isinstance(ch, (ast.FunctionDef, ast.AsyncFunctionDef, ast.Lambda)):
+                continue
+            if isinstance(ch, ast.Await):
+                acc.append(ast.unparse(ch))
+            awaits(ch, acc)
+        return acc
+    g['awaitsBefore'] = awaits(f, [])
+    a = X.find_func(cls, attach)
+    if a is not None:
+        def writes(st):
+            return isinstance(st, ast.Assign) and ast.unparse(st.targets[0]) == 'node.validator'
+        if sum(1 for n in ast.walk(a) if writes(n)) == 1:
+            if any(writes(st) for st in a.body):
+                g['valWrite'] = 'always'
+            elif any(isinstance(st, ast.If) and ast.unparse(st.test) == 'validator' and not st.orelse
+                     and len(st.body) == 1 and writes(st.body[0]) for st in a.body):
+                g['valWrite'] = 'ifTruthy'
+    return g
+
+
+def generate_c05t(repo):
+    """lean/NdnGen/C05T.lean"""
+    X = pit_extract
+    P = X._src(repo)
+    out = ['import NdnModel.GateTimedShape',
+           '/- GENERATED by harness/props/c05.py (generate_c05t) from src/ndn/appv2.py, src/ndn/app.py (ast only; nothing is '
+           'executed). Do not edit. -/',
+           'namespace Ndn.Gen.C05T', 'open Ndn Ndn.Src', '']
+    strs = lambda xs: '[' + ', '.join(X.lean_str(x) for x in xs) + ']'
+    for tag, path, attach in (('v2', P['v2'], 'attach_handler'), ('v1', P['v1'], 'set_interest_filter')):
+        g = submit_shape(X.find_class(X.parse(path), 'NDNApp'), attach)
+        out += X._struct(tag, 'SubmitShape', [
+            ('lookups', str(g['lookups'])), ('nodeBinds', strs(g['nodeBinds'])), ('spawn', X.lean_str(g['spawn'])),
+            ('validatorRead', X.lean_str(g['validatorRead'])), ('callbackCall', X.lean_str(g['callbackCall'])),
+            ('validatorCaught', X._exc_list(g['validatorCaught'])), ('validatorCaughtAs', '.' + g['validatorCaughtAs']),
+            ('awaitsBefore', strs(g['awaitsBefore'])), ('valWrite', '.' + g['valWrite'])])
+    out += ['end Ndn.Gen.C05T', '']
+    return '\n'.join(out)
 
 
 RULE = ('(a) the event histories of C03 (incl. its hardening dimensions: parameterised / signed Interests, MustBeFresh, '
@@ -81,7 +197,16 @@ RULE = ('(a) the event histories of C03 (incl. its hardening dimensions: paramet
         'SignatureValue of Interests (legacy default int_validator) and of Data answering an Interest expressed without '
         'validator (legacy default data_validator, also with need_raw_packet / in an LpPacket); the application-wide legacy '
         'validators replaced by scripts (in force exactly where no validator was supplied); the route validator a '
-        'union_checker over 0..3 scripted members (in force: all of them, each consulted before the handler). non-trivial = a '
+        'union_checker over 0..3 scripted members (in force: all of them, each consulted before the handler); (d) TIMED histories '
+        'of the gate, both front-ends, compared observation for observation and instant for instant with the timed model '
+        '(which validator was called with which Interest when, which handler got which Interest when, which submit_interest '
+        'task died with which exception, what every attach / detach returned): the prefix detached / detached and attached '
+        'again with another handler and validator (or without validator) / attached a second time / a longer prefix attached '
+        '/ the shorter prefix removed - before the Interest arrives, while its validator decides, after it answered - for '
+        'every verdict incl. the raising ones and a validator that answers without yielding; two Interests in flight under '
+        'one prefix whose validators answer in the opposite order with different verdicts; wrong / absent digests; a '
+        'registration without callable written in place later; random histories of 3..10 attach / detach / Interest entries '
+        'over four nested prefixes. non-trivial = a '
         'history in which some validator ran, or a gate case with parameters or signature; distinct = distinct cases')
 
 V2_ALL = ['PASS', 'ALLOW_BYPASS', 'FAIL', 'TIMEOUT', 'SILENCE', 'RAISE_TIMEOUT', 'RAISE_OTHER'] + list(c03.B_VALUES)
@@ -97,6 +222,9 @@ DVARS_QUICK = ['first', 'last', 'empty', 'prefix:1', 'prefix:16', 'prefix:31', '
 SVARS = ['first', 'last', 'empty'] + ['prefix:%d' % k for k in (1, 2, 8, 16, 24, 30, 31)] + ['suffix:31', 'ext:1', 'ext:32',
                                                                                                'pad:31']
 SVARS_QUICK = ['first', 'last', 'empty', 'prefix:1', 'prefix:31', 'ext:1', 'pad:31']
+
+
+SHAPES = [{'info': True, 'value': None}, {'info': False, 'value': 'full'}, {'info': True, 'value': 'empty'}]
 
 
 def data_cases(thorough):
@@ -130,6 +258,21 @@ def gate_cases(fe, thorough=False):
     for v in verdicts:
         routes.append({'validator': {'verdict': v, 'lat': 0}})
         routes.append({'validator': {'verdict': v, 'lat': 30}})
+    # hardening 3: half-signed Interests (hand-built): InterestSignatureInfo without InterestSignatureValue, the value
+    # without the info, both with an EMPTY value - with ApplicationParameters present / empty / absent, the parameters
+    # digest right / wrong / absent, bare and inside an LpPacket, on every route.  What decides is the packet (an
+    # InterestSignatureInfo element = a signature), not what the decoder reports about it
+    for sh in SHAPES:
+        for params in (True, 'empty', False):
+            for digest_ok in (True, False, 'absent'):
+                for lp in (False, True):
+                    p = {'params': params, 'sig': sh['info'], 'digest_ok': digest_ok, 'sig_valid': False, 'shape': sh}
+                    if lp:
+                        p['lp'] = True
+                    for r in routes:
+                        if lp and isinstance(r, dict) and r['validator'] and r['validator']['lat'] and not thorough:
+                            continue
+                        yield {'kind': 'g', 'fe': fe, 'pkt': p, 'route': r}
     # hardening 2: near misses of the right digest (shared helper params_sha256_checker) - every route, no dup / reattach
     for params, sig in ((True, False), ('empty', False), (True, True), (False, True)):
         for dv in (DVARS if thorough else DVARS_QUICK):
@@ -195,7 +338,8 @@ def swap_cases(fe):
     """the routing table changes while the validator of an incoming Interest is still deciding (latency 30 ms, the
     change happens after 15): the prefix is detached - leaving a handler on the shorter prefix '/' whose own validator
     (none, which means rejection in the current front-end; a refusing script in the legacy one) never accepts - or
-    detached and attached again with another handler and a validator of the opposite verdict.  Oracle only."""
+    detached and attached again with another handler and a validator of the opposite verdict.  Put to the timed model
+    (swap_as_timed) and to the oracle."""
     verdicts = (V2_ALL if fe == 'v2' else V1_ALL)
     pkts = [{'params': True, 'sig': False, 'digest_ok': True, 'sig_valid': True},
             {'params': 'empty', 'sig': False, 'digest_ok': True, 'sig_valid': True},
@@ -208,12 +352,368 @@ def swap_cases(fe):
                 yield {'kind': 'g', 'fe': fe, 'pkt': p, 'route': {'validator': {'verdict': v, 'lat': 30}}, 'swap': sw}
 
 
+
+# ------------------------------------------------------------------------------------- the timed gate
+AV = 0                      # id of the legacy application-wide int_validator (a script, like every validator here)
+T_PKTS = {
+    'P': {'params': True, 'sig': False, 'digest_ok': True, 'sig_valid': True},
+    'E': {'params': 'empty', 'sig': False, 'digest_ok': True, 'sig_valid': True},
+    'PS': {'params': True, 'sig': True, 'digest_ok': True, 'sig_valid': True},
+    'S': {'params': False, 'sig': True, 'digest_ok': True, 'sig_valid': False},
+    'plain': {'params': False, 'sig': False, 'digest_ok': True, 'sig_valid': True},
+    'Pbad': {'params': True, 'sig': False, 'digest_ok': False, 'sig_valid': True},
+    'PSbad': {'params': True, 'sig': True, 'digest_ok': False, 'sig_valid': True},
+    'PSabsent': {'params': True, 'sig': True, 'digest_ok': 'absent', 'sig_valid': True},
+    # half-signed (hand-built): InterestSignatureInfo without InterestSignatureValue, without / with ApplicationParameters
+    'Sinfo': {'params': False, 'sig': True, 'digest_ok': True, 'sig_valid': False, 'shape': {'info': True, 'value': None}},
+    'PSinfo': {'params': True, 'sig': True, 'digest_ok': True, 'sig_valid': False, 'shape': {'info': True, 'value': None}},
+    'SinfoBad': {'params': False, 'sig': True, 'digest_ok': False, 'sig_valid': False, 'shape': {'info': True, 'value': None}},
+    'Pvalue': {'params': True, 'sig': False, 'digest_ok': True, 'sig_valid': False, 'shape': {'info': False, 'value': 'full'}},
+}
+
+
+def _int(t, under, pk, verdict, lat):
+    return {'t': t, 'op': 'interest', 'under': under, 'pkt': dict(T_PKTS[pk]), 'verdict': verdict, 'lat': lat}
+
+
+def _att(t, name, h, v):
+    return {'t': t, 'op': 'attach', 'name': name, 'h': h, 'v': v}
+
+
+def _det(t, name):
+    return {'t': t, 'op': 'detach', 'name': name}
+
+
+def timed_scenarios(fe, thorough=False):
+    """table operations at several instants relative to the validator's latency (before the arrival, while the
+    validator decides, after its answer); two Interests in flight under one prefix with different verdicts; validators
+    that raise.  Table operations happen at multiples of 10 ms, validators answer at instants ending in 1..9."""
+    verdicts = V2_ALL if fe == 'v2' else V1_ALL
+    short_v = None if fe == 'v2' else 12      # the handler on the shorter prefix: no validator (current) / its own (legacy)
+    base = [_att(0, '/g', 1, 10), _att(0, '/', 2, short_v)]
+    changes = {
+        'detach': lambda t: [_det(t, '/g')],
+        'reattach': lambda t: [_det(t, '/g'), _att(t, '/g', 3, 11)],
+        'reattach-noval': lambda t: [_det(t, '/g'), _att(t, '/g', 3, None)],
+        'same-handler-new-validator': lambda t: [_det(t, '/g'), _att(t, '/g', 4, 11)],
+        'dup': lambda t: [_att(t, '/g', 5, 14)],
+        'longer': lambda t: [_att(t, '/g/x0', 6, 13)],
+        'shorter-off': lambda t: [_det(t, '/')],
+        'all-off': lambda t: [_det(t, '/g'), _det(t, '/')],
+    }
+    pks = ['P', 'PS', 'S', 'plain'] if thorough else (['P', 'PS'] if fe == 'v2' else ['PS', 'S'])
+    for ch, mk in changes.items():
+        for when in (50, 120, 160):
+            for v in verdicts:
+                for pk in pks:
+                    # Interest 0 arrives at 100, its validator answers at 141; Interest 1 arrives when all is over
+                    line = base + [_int(100, '/g', pk, v, 41), _int(200, '/g', pk, v, 12)] + mk(when)
+                    yield {'kind': 't', 'fe': fe, 'line': sorted(line, key=lambda e: e['t'])}
+    # a validator that answers at once (no yield): start and answer in the same instant
+    for v in verdicts:
+        for pk in ('P', 'PS', 'S', 'plain', 'Pbad', 'PSbad', 'PSabsent', 'E', 'Sinfo', 'PSinfo', 'SinfoBad', 'Pvalue'):
+            yield {'kind': 't', 'fe': fe, 'line': base + [_int(100, '/g', pk, v, 0), _det(110, '/g'), _int(120, '/g', pk, v, 0)]}
+    # two Interests in flight under one prefix, the second one's validator answers first, with another verdict
+    acc = 'PASS'
+    others = [v for v in verdicts if v != acc]
+    for other in others:
+        for a, b in ((acc, other), (other, acc)):
+            for ch in (None, 'detach', 'reattach'):
+                for pk in (('PS',) if not thorough else ('PS', 'P', 'S')):
+                    line = base + [_int(100, '/g', pk, a, 61), _int(110, '/g', pk, b, 22)]
+                    if ch:
+                        line += changes[ch](120)
+                    line.append(_int(200, '/g', pk, acc, 13))
+                    yield {'kind': 't', 'fe': fe, 'line': sorted(line, key=lambda e: e['t'])}
+    # a handler attached without a callable, then the real one on the same prefix (the node object is written in place)
+    for v in ('PASS', 'FAIL'):
+        yield {'kind': 't', 'fe': fe, 'line': [_att(0, '/g', None, None), _int(50, '/g', 'PS', v, 11), _att(60, '/g', 1, None),
+                                               _int(100, '/g', 'PS', v, 22), _att(110, '/g', 2, 11)]}
+
+
+def gen_timed(rng, fe):
+    """a random timed history"""
+    verdicts = V2_ALL if fe == 'v2' else V1_ALL
+    prefixes = ['/', '/g', '/g/k', '/q']
+    line, t, hid, n_int = [], 0, 1, 0
+    attached = set()
+    for _ in range(rng.randint(3, 10)):
+        t += 10 * rng.randint(1, 4)
+        r = rng.random()
+        if r < 0.35:
+            name = rng.choice(prefixes)
+            v = rng.choice([None, 10, 11, 12, 13])
+            h = hid
+            hid += 1
+            if rng.random() < 0.04:
+                # attached without a callable (a node without callback): the statement says nothing about which
+                # validator such a registration puts in force, so it carries none
+                h, v = None, None
+            line.append(_att(t, name, h, v))
+            attached.add(name)
+        elif r < 0.55:
+            name = rng.choice(sorted(attached) if attached and rng.random() < 0.85 else prefixes)
+            line.append(_det(t, name))
+            attached.discard(name)
+        elif n_int < 9:
+            pk = rng.choice(['P', 'PS', 'PS', 'S', 'E', 'plain', 'Pbad', 'PSbad', 'Sinfo', 'PSinfo'])
+            lat = 0 if rng.random() < 0.2 else 10 * rng.randint(0, 6) + 1 + n_int
+            v = rng.choice(verdicts) if rng.random() < 0.5 else rng.choice(['PASS', 'FAIL', 'RAISE_OTHER'])
+            line.append(_int(t, rng.choice(['/g', '/g/k', '/q', '/g']), pk, v, lat))
+            n_int += 1
+    if n_int == 0:
+        line.append(_int(t + 10, '/g', 'PS', rng.choice(verdicts), 21))
+    return {'kind': 't', 'fe': fe, 'line': line}
+
+
+def swap_as_timed(case):
+    """kind 'g' with 'swap', as a timed history: handler h = 1, its validator v = 10; the handler on the shorter prefix
+    y = 2 (validator u = 12 in the legacy front-end); the intruder x = 3 with validator w = 11"""
+    fe, spec = case['fe'], case['route']['validator']
+    line = [_att(0, '/g', 1, 10), _att(0, '/', 2, None if fe == 'v2' else 12),
+            {'t': 10, 'op': 'interest', 'under': '/g', 'pkt': case['pkt'], 'verdict': spec['verdict'], 'lat': spec['lat']},
+            _det(25, '/g')]
+    if case['swap'] == 'reattach':
+        line.append(_att(25, '/g', 3, 11))
+    return {'kind': 't', 'fe': fe, 'line': line}
+
+
+SWAP_LETTERS = {'v10': 'v', 'v11': 'w', 'v12': 'u', 'h1': 'h', 'h3': 'x', 'h2': 'y'}
+
+
+def _iname(e, i):
+    return e['under'].rstrip('/') + '/x%d' % i
+
+
+def run_timed(case):
+    enc, types, _, _ = c03._lib()
+    fe, line = case['fe'], case['line']
+    ents = [e for e in line if e['op'] == 'interest']
+    log, res = [], []
+    with AppRig(fe, t0=c03.T0) as rig:
+        loop = rig.loop
+
+        def now():
+            return int(round((loop.time() - c03.T0) * 1000))
+
+        def iid(name):
+            for comp in name:
+                v = bytes(enc.Component.get_value(comp))
+                if enc.Component.get_type(comp) == enc.Component.TYPE_GENERIC and v[:1] == b'x' and v[1:].isdigit():
+                    return int(v[1:])
+            raise AssertionError('an Interest the harness did not send')
+        import ndn.security as sec_mod
+        import ndn.app as app_mod
+        orig = sec_mod.params_sha256_checker
+
+        async def logging_checker(name, sig):
+            log.append(['d%d' % iid(name), now()])
+            return await orig(name, sig)
+        saved = (sec_mod.params_sha256_checker, app_mod.params_sha256_checker)
+        sec_mod.params_sha256_checker = logging_checker
+        app_mod.params_sha256_checker = logging_checker
+        try:
+            def mk_validator(vid):
+                async def body(name):
+                    i = iid(name)
+                    log.append(['v%d.%d' % (i, vid), now()])
+                    e = ents[i]
+                    if e['lat']:
+                        await asyncio.sleep(e['lat'] / 1000.0)
+                    if e['verdict'] == 'RAISE_TIMEOUT':
+                        raise TimeoutError()
+                    if e['verdict'] == 'RAISE_OTHER':
+                        raise c03.ScriptedError()
+                    return e['verdict']
+                if fe == 'v2':
+                    async def val(name, sig, ctx):
+                        v = await body(name)
+                        return c03.B_VALUES[v] if v in c03.B_VALUES else types.ValidResult[v]
+                else:
+                    async def val(name, sig):
+                        return c03.V1_TRUTH[await body(name)]
+                return val
+
+            def mk_handler(hid):
+                if fe == 'v2':
+                    def h(name, app_param, reply, context):
+                        log.append(['h%d.%d' % (iid(name), hid), now()])
+                else:
+                    def h(name, param, app_param):
+                        log.append(['h%d.%d' % (iid(name), hid), now()])
+                return h
+            if fe == 'v1':
+                rig.app.int_validator = mk_validator(AV)
+            rxs, n_int = [], 0
+            for e in line:
+                loop.advance(c03.T0 + e['t'] / 1000.0)
+                if e['op'] == 'interest':
+                    wire = build_interest(dict(e['pkt'], name=_iname(e, n_int)))
+                    n_int += 1
+                    rxs.append(loop.create_task(rig.face.callback(rig._typ(wire), wire)))
+                    loop.settle()
+                    continue
+                try:
+                    if e['op'] == 'attach':
+                        h = mk_handler(e['h']) if e['h'] is not None else None
+                        v = mk_validator(e['v']) if e['v'] is not None else None
+                        if fe == 'v2':
+                            rig.app.attach_handler(e['name'], h, v)
+                        else:
+                            rig.app.set_interest_filter(e['name'], h, v)
+                    elif fe == 'v2':
+                        rig.app.detach_handler(e['name'])
+                    else:
+                        rig.app.unset_interest_filter(e['name'])
+                    res.append('o')
+                except ValueError:
+                    res.append('V')
+                except KeyError:
+                    res.append('K')
+            loop.advance(c03.T0 + (line[-1]['t'] + 700) / 1000.0)
+            errs = []
+            for k, rx in enumerate(rxs):
+                if not rx.done():
+                    errs.append(['NeverFinished', 'reception task %d' % k])
+                elif not rx.cancelled() and rx.exception() is not None:
+                    errs.append([type(rx.exception()).__name__, 'reception task %d' % k])
+            del rxs
+            loop.settle()
+            died = []
+            for cls, msg in loop.errors:
+                if 'never retrieved' in msg and cls in ('ScriptedError', 'TimeoutError'):
+                    died.append(cls)
+                else:
+                    errs.append([cls, msg])
+        finally:
+            sec_mod.params_sha256_checker, app_mod.params_sha256_checker = saved
+    return {'tlog': log, 'res': ''.join(res), 'died': sorted(died), 'loop_errors': errs}
+
+
+def timed_events(case):
+    """the history as the events of the model, in the order they happen: [(time, text)]"""
+    comp = {}
+
+    def nm(uri):
+        parts = [x for x in uri.split('/') if x]
+        return '.'.join(str(comp.setdefault(x, len(comp) + 1)) for x in parts) if parts else '~'
+    evs, n_int = [], 0
+    for k, e in enumerate(case['line']):
+        if e['op'] == 'attach':
+            evs.append((e['t'], k, 0, 'a:%s:%s:%s' % (nm(e['name']), '~' if e['h'] is None else e['h'],
+                                                       '~' if e['v'] is None else e['v'])))
+        elif e['op'] == 'detach':
+            evs.append((e['t'], k, 0, 'x:' + nm(e['name'])))
+        else:
+            p = e['pkt']
+            bits = ''.join('1' if x else '0' for x in (p['params'], p['sig'], p['digest_ok'] is True))
+            evs.append((e['t'], k, 0, 'i:%s:%s' % (nm(_iname(e, n_int)), bits)))
+            evs.append((e['t'], k, 1, 's:%d' % n_int))
+            evs.append((e['t'] + e['lat'], k, 2, 'd:%d:%s' % (n_int, c03.model_verdict(case['fe'], e['verdict']))))
+            n_int += 1
+    evs.sort()
+    assert len(comp) < 250
+    return [(t, txt) for t, _, _, txt in evs]
+
+
+def timed_model_line(case):
+    return 'C05 t %s %d %s' % (case['fe'], AV, ';'.join(txt for _, txt in timed_events(case)))
+
+
+def timed_model_obs(answer, case):
+    assert answer.startswith('ok '), answer
+    res, _, segs = answer[3:].partition('|')
+    evs = timed_events(case)
+    segs = segs.split('/') if evs else []
+    assert len(segs) == len(evs), answer
+    tlog, died = [], []
+    for (t, _), seg in zip(evs, segs):
+        for tok in (seg.split(',') if seg else []):
+            if tok.startswith('E'):
+                died.append(tok.split('.', 1)[1])
+            else:
+                tlog.append([tok, t])
+    return {'tlog': tlog, 'res': '' if res == '-' else res, 'died': sorted(died)}
+
+
+def _accepting(fe, verdict):
+    return verdict in c03.V2_ACCEPT if fe == 'v2' else bool(c03.V1_TRUTH.get(verdict, False))
+
+
+def oracle_timed(case, impl):
+    """the property statement on a timed history.  Whatever handler an Interest ends up at (which one it should be is
+    C04's business): the validator registered WITH that handler was consulted with this Interest first and had
+    returned an accepting verdict by the time the handler was called; never a handler registered without validator
+    (current front-end); wrong digest: nothing; plain: no validator, delivered; no Interest twice."""
+    if impl['loop_errors']:
+        return f"internal error escaped a callback: {impl['loop_errors'][0][0]}"
+    fe, line = case['fe'], case['line']
+    regs = {e['h']: e['v'] for e in line if e['op'] == 'attach' and e['h'] is not None}
+    # a registration without a callable leaves a node that shadows shorter prefixes: whether a plain Interest under it
+    # must still be delivered is C04's business (its theorems assume every attach carries a handler)
+    proper = all(e['h'] is not None for e in line if e['op'] == 'attach')
+    ents = [e for e in line if e['op'] == 'interest']
+    per = {i: [] for i in range(len(ents))}
+    for tok, t in impl['tlog']:
+        i, _, ident = tok[1:].partition('.')
+        per[int(i)].append((tok[0], int(ident) if ident else None, t))
+    # the handlers attached when each Interest arrived (prefix -> handler; a refused duplicate changes nothing)
+    table, tables, k = {}, [], 0
+    for e in line:
+        if e['op'] == 'attach':
+            if not table.get(e['name']):
+                table[e['name']] = e['h']
+        elif e['op'] == 'detach':
+            table.pop(e['name'], None)
+        else:
+            nm = _iname(e, k)
+            tables.append([h for pre, h in table.items() if h is not None and (nm + '/').startswith(pre.rstrip('/') + '/')])
+            k += 1
+    for i, e in enumerate(ents):
+        p = e['pkt']
+        hs = [(ident, t) for kind, ident, t in per[i] if kind == 'h']
+        vs = [(ident, t) for kind, ident, t in per[i] if kind == 'v']
+        needs = bool(p['params'] or p['sig'])
+        if len(hs) > 1:
+            return f'Interest {i}: more than one handler invoked for one Interest'
+        if needs and p['digest_ok'] is not True and (hs or vs):
+            return (f'Interest {i}: an Interest with ApplicationParameters or signature and a wrong parameters digest was '
+                    + ('delivered to the handler' if hs else 'passed on to the validator'))
+        if not needs:
+            if vs:
+                return f'Interest {i}: a validator was consulted for a plain Interest'
+            if tables[i] and not hs and proper:
+                return f'Interest {i}: a plain Interest was not delivered'
+            continue
+        if not (needs if fe == 'v2' else p['sig']) or not hs:
+            continue
+        hid, th = hs[0]
+        vid = regs.get(hid)
+        if vid is None and fe == 'v2':
+            return (f'Interest {i}: an Interest that requires validation reached handler {hid}, which was registered '
+                    'without validator (= rejection)')
+        inforce = AV if vid is None else vid
+        calls = [t for ident, t in vs if ident == inforce and t <= th]
+        if not calls:
+            return (f'Interest {i}: reached handler {hid} without the validator registered with that handler '
+                    f'({inforce}) being consulted first' + (f' (consulted: {sorted(set(x for x, _ in vs))})' if vs else ''))
+        if not _accepting(fe, e['verdict']):
+            return f'Interest {i}: reached its handler although the validator in force did not accept it ({e["verdict"]})'
+        if th < calls[0] + e['lat']:
+            return f'Interest {i}: reached its handler before its validator had answered'
+    return None
+
+
 def cases(rng, tier):
     for fe in ('v2', 'v1'):
         for c in gate_cases(fe, tier != 'quick'):
             yield c
         for c in swap_cases(fe):
             yield c
+        for c in timed_scenarios(fe, tier != 'quick'):
+            yield c
+    for k in range(300 if tier == 'quick' else 6000):
+        yield gen_timed(rng, 'v2' if k % 2 == 0 else 'v1')
     for c in data_cases(tier != 'quick'):
         yield c
     n = 900 if tier == 'quick' else 15000
@@ -247,6 +747,12 @@ def shrink(case):
         for k in ('raw', 'lp'):
             if case[k]:
                 yield dict(case, **{k: False})
+        return
+    if case['kind'] == 't':
+        line = case['line']
+        for k in range(len(line)):
+            if len(line) > 1 and any(e['op'] == 'interest' for j, e in enumerate(line) if j != k):
+                yield dict(case, line=line[:k] + line[k + 1:])
         return
     r = case['route']
     if case['pkt'].get('lp'):
@@ -371,9 +877,35 @@ def _fix_digest_any(enc, wire):
     return wire.replace(old, h.digest())
 
 
+def _build_shaped(pkt):
+    """a half-signed Interest, octet by octet: Name [digest component], Nonce, InterestLifetime, [ApplicationParameters],
+    [InterestSignatureInfo (DigestSha256)], [InterestSignatureValue]; the ParametersSha256DigestComponent is computed
+    here from the packet format: SHA-256 over everything from ApplicationParameters to the end"""
+    sh = pkt['shape']
+    tail = b''
+    if pkt['params']:
+        tail += _tlv(0x24, b'' if pkt['params'] == 'empty' else b'param')
+    if sh['info']:
+        tail += _tlv(0x2c, _tlv(0x1b, b'\x00'))
+    if sh['value'] is not None:
+        tail += _tlv(0x2e, b'' if sh['value'] == 'empty' else bytes(range(1, 33)))
+    digest = hashlib.sha256(tail).digest()
+    if pkt['digest_ok'] is False:
+        digest = bytes(b ^ 0xff for b in digest)
+    nm = b''.join(_tlv(0x08, c.encode()) for c in pkt.get('name', '/g/x').split('/') if c)
+    if pkt['digest_ok'] != 'absent':
+        nm += _tlv(0x02, digest)
+    return _tlv(0x05, _tlv(0x07, nm) + _tlv(0x0a, b'\x00\x00\x00\x4d') + _tlv(0x0c, b'\x0f\xa0') + tail)
+
+
 def build_interest(pkt):
-    w = _build_interest(pkt)
     enc = c03._lib()[0]
+    if pkt.get('shape'):
+        w = _build_shaped(pkt)
+        if pkt.get('lp'):
+            w = c03.lp_wrap(c03._lib()[2], w)
+        return w
+    w = _build_interest(pkt)
     if pkt.get('svar'):
         w = _fix_digest_any(enc, _set_sigvalue(w, 0x05, 0x2e, pkt['svar']))
         _, _, _, sig = enc.parse_interest(w)
@@ -393,7 +925,7 @@ def build_interest(pkt):
 
 def _build_interest(pkt):
     enc, _, _, Signer = c03._lib()
-    name = '/g/x'
+    name = pkt.get('name', '/g/x')
     if pkt.get('dpos') == 'mid':
         # caller-supplied placeholder: the encoder fills the digest in place
         name = [enc.Component.from_str('g'),
@@ -670,6 +1202,8 @@ def run_impl(case):
         return Run5(case).run()
     if case['kind'] == 'd':
         return run_data(case)
+    if case['kind'] == 't':
+        return run_timed(case)
     return run_gate(case)
 
 
@@ -680,8 +1214,12 @@ def model_line(case, impl):
             return None
         toks = c03.model_events(case)
         return f"C05 h {case['fe']} {';'.join(toks) if toks else '.'}"
-    if case['kind'] == 'd' or case.get('swap'):
+    if case['kind'] == 'd':
         return None
+    if case['kind'] == 't':
+        return timed_model_line(case)
+    if case.get('swap'):
+        return timed_model_line(swap_as_timed(case))
     p, r = case['pkt'], case['route']
     bits = ''.join('1' if x else '0' for x in (p['params'], p['sig'], p['digest_ok'] is True))
     if isinstance(r, dict):
@@ -708,12 +1246,22 @@ def model_line(case, impl):
 def model_obs(answer, case, impl):
     if case['kind'] == 'h':
         return c03.model_obs(answer, case, impl)
+    if case['kind'] == 't':
+        return timed_model_obs(answer, case)
+    if case.get('swap'):
+        # the letters run_gate records; S = the instant of the table change (25 ms)
+        mo = timed_model_obs(answer, swap_as_timed(case))
+        let = lambda tok: 'd' if tok[0] == 'd' else SWAP_LETTERS[tok[0] + tok.split('.')[1]]
+        return (''.join(let(tok) for tok, t in mo['tlog'] if t <= 25) + 'S'
+                + ''.join(let(tok) for tok, t in mo['tlog'] if t > 25))
     assert answer.startswith('ok '), answer
     a = answer[3:].strip()
     return '' if a == '-' else a
 
 
 def impl_obs(impl):
+    if 'tlog' in impl:
+        return {'tlog': impl['tlog'], 'res': impl['res'], 'died': impl['died']}
     if 'res' in impl:
         return impl['res']
     if 'acts' in impl:
@@ -849,6 +1397,8 @@ def oracle_data(case, impl):
 
 
 def oracle(case, impl):
+    if case['kind'] == 't':
+        return oracle_timed(case, impl)
     if case['kind'] == 'g':
         return oracle_gate(case, impl)
     if case['kind'] == 'd':
@@ -859,6 +1409,8 @@ def oracle(case, impl):
 def nontrivial(case, impl):
     if case['kind'] == 'd':
         return True
+    if case['kind'] == 't':
+        return any(e['op'] == 'interest' and (e['pkt']['params'] or e['pkt']['sig']) for e in case['line'])
     if case['kind'] == 'g':
         return case['pkt']['params'] or case['pkt']['sig']
     return len(impl['vcalls']) > 0
@@ -868,6 +1420,22 @@ def tags(case, impl):
     if case['kind'] == 'd':
         return ['data-default', 'sigvalue:' + (case['svar'] or 'right').split(':')[0],
                 'appv:' + (case['appv']['verdict'] if case['appv'] else '-'), 'res:' + str(impl['res'][:2])]
+    if case['kind'] == 't':
+        t = ['timed', 'timed-fe:' + case['fe']]
+        ents = [e for e in case['line'] if e['op'] == 'interest']
+        for e in ents:
+            during = [x['op'] for x in case['line'] if x['op'] != 'interest' and e['t'] < x['t'] < e['t'] + e['lat']]
+            if during:
+                t.append('timed:table-change-while-validating:' + '+'.join(sorted(set(during))))
+            if any(o is not e and o['under'] == e['under'] and o['t'] < e['t'] < o['t'] + o['lat'] for o in ents):
+                t.append('timed:two-in-flight')
+        for tok, _ in impl['tlog']:
+            t.append('timed-obs:' + tok[0])
+        for d in impl['died']:
+            t.append('timed-died:' + d)
+        for r in impl['res']:
+            t.append('timed-op:' + {'o': 'ok', 'V': 'ValueError', 'K': 'KeyError'}.get(r, r))
+        return t
     if case['kind'] == 'g':
         p, r = case['pkt'], case['route']
         t = ['gate', 'fe:' + case['fe'], 'pkt:' + ('P' if p['params'] else '-') + ('S' if p['sig'] else '-')
@@ -876,6 +1444,9 @@ def tags(case, impl):
         for k in ('dup', 'reattach'):
             if case.get(k):
                 t.append(k)
+        if p.get('shape'):
+            t.append('half-signed:' + ('info' if p['shape']['info'] else 'no-info') + '+'
+                     + ('no-value' if p['shape']['value'] is None else p['shape']['value'] + '-value'))
         if p.get('dvar'):
             t.append('digest:' + p['dvar'].split(':')[0])
         if p.get('svar'):
@@ -903,6 +1474,9 @@ def finding_key(case, impl, why):
     if case['kind'] == 'g':
         w = re.sub(r'[^a-zA-Z]+', '-', why).strip('-').lower()
         return f"gate-{case['fe']}-{w[:70]}"
+    if case['kind'] == 't':
+        w = re.sub(r'[^a-zA-Z]+', '-', re.sub(r'^Interest \d+: ', '', why)).strip('-').lower()
+        return f"timed-{case['fe']}-{w[:70]}"
     if case['fe'] == 'v1' and c03.oracle_common(case, impl, strict=True, enforce=(False,)) is None:
         # the only thing wrong is that the deadline was not enforced while the validator ran (finding F15)
         return F15_KEY
@@ -918,7 +1492,16 @@ LEVEL_TEXT = ('Lean 4 theorems (a) over the pending-Interest model of C03 (incl.
               'still running at the deadline yields a timeout (v2); (b) over a model of the incoming-Interest gate: wrong '
               'parameters digest => dropped before any validator; parameterised/signed Interests reach the handler only '
               'after digest check and an accepting validator, a missing validator rejects (v2), signed ones in the legacy '
-              'front-end; plain Interests are delivered without consulting a validator. Tied to the code on every run by '
+              'front-end; plain Interests are delivered without consulting a validator; (c) over a TIMED small-step model '
+              'of that gate (events attach / detach / arrive / start / done / deadline; node objects with identity on a heap; '
+              'Interests in flight holding the node object kept at arrival), for every event history: what is observed about an '
+              'Interest is a function of the registration in force at the longest attached prefix at the instant of its arrival '
+              '(C04\'s specification) and of its own start / done events only (timed_flight, arrival_registration: a node that '
+              'carries a callback is never written again); hence delivered only through the validator registered with that very '
+              'handler, after its accepting answer for this Interest, never to a handler registered without validator (v2); '
+              'wrong digest: nothing but the digest check; plain: no validator; at most one delivery; a refusing or raising '
+              'validator: no delivery, the exception ends that Interest\'s own task only; once started and answered the steps '
+              'are those of the atomic model on the table as it was at arrival (timed_refines_atomic). Tied to the code on every run by '
               'differential execution against the real NDNApp (v2 and legacy) with scripted validators and handlers on a '
               'virtual-time loop, plus the property oracle on the implementation.')
 LEVEL_NOTE = ('Proof is about the model; model=code is sampled and - for the delivering verdicts, the except clauses around the '
@@ -928,5 +1511,5 @@ LEVEL_NOTE = ('Proof is about the model; model=code is sampled and - for the del
               'wait_for, so a validator that outlives the lifetime still decides (finding F15, known finding, reproduced '
               'by the oracle and exhibited as a Lean counterexample); validator_late_timeout is therefore stated for the '
               'current front-end only.')
-TECHNIQUE = 'Lean 4 proof (history-level justification by induction over event histories; exhaustive case analysis of the gate) + model/implementation correspondence check'
+TECHNIQUE = 'Lean 4 proof (history-level justification by induction over event histories; exhaustive case analysis of the gate; per-Interest projection of a small-step machine with a frozen-heap invariant, refinement to the atomic gate) + model/implementation correspondence check'
 DESIGN_REF = 'DESIGN.md section 7, C05'
